@@ -34,6 +34,7 @@ FLOORS = {'quick': {'nontrivial': 10, 'db_runs': 60,
           'thorough': {'nontrivial': 150, 'db_runs': 900,
                        'sql_evolution_values_checked': 30}}
 SIZES = {'quick': 24, 'thorough': 300}
+HANDOVERS = {'quick': 8, 'thorough': 48}
 TIMEOUT = {'quick': 170, 'thorough': 1700}
 
 
@@ -44,7 +45,9 @@ def eff_seed(seed):
 def plan(tier, seed):
     es = eff_seed(seed)
     return [{'mode': 'split', 'seed': es, 'i': i}
-            for i in range(SIZES[tier])]
+            for i in range(SIZES[tier])] + \
+        [{'mode': 'handover', 'seed': es, 'i': i}
+         for i in range(HANDOVERS[tier])]
 
 
 def worker_setup():
@@ -67,8 +70,8 @@ def gen(rng, i):
     cur = spec
     deleted = None
     # a quarter of the evolutions only touch models of one database
-    one_sided = rng.choice(['default', 'other']) if rng.random() < 0.25 \
-        else None
+    side = rng.choice(['default', 'other'])
+    one_sided = side if (rng.random() < 0.15 or i % 4 == 1) else None
     for m in names:
         if one_sided and routes[('app1', m.lower())] != one_sided and \
                 len([x for x in names
@@ -99,14 +102,22 @@ def gen(rng, i):
                  'name': 'w', 'attrs': {'max_length': 50}}
         edits.append(e)
     renamed = None
-    if rng.random() < 0.34:
-        m = rng.choice([x for x in names if x != deleted])
+    on_other = [x for x in names if x != deleted and
+                routes[('app1', x.lower())] == 'other']
+    force_late = i % 6 == 3 and bool(on_other)
+    if rng.random() < 0.2 or i % 3 == 0:
+        m = rng.choice(on_other if force_late else
+                       [x for x in names if x != deleted])
         new = m + 'x'
+        # half of the renames also move the model to the new default table
+        # (always for a model on `other` in every sixth project: late_app)
+        new_table = rng.random() < 0.5 or force_late
         edits.append({'op': 'rename_model', 'app': 'app1', 'old': m,
                       'new': new,
-                      'db_table': S.model_table(spec, 'app1', m)})
+                      'db_table': S.default_table('app1', new) if new_table
+                      else S.model_table(spec, 'app1', m)})
         routes[('app1', new.lower())] = routes[('app1', m.lower())]
-        renamed = (m, new)
+        renamed = (m, new, new_table)
     rng.shuffle(edits)
     if renamed:
         # the RenameModel comes last: mutations that follow a rename inside
@@ -143,7 +154,175 @@ def stored_models(proj, db):
     return sorted(d.get('apps', {}).get('app1', {}).get('models', {}))
 
 
+MIGRATION_SRC = """from django.db import migrations, models
+
+
+class Migration(migrations.Migration):
+    initial = %(initial)r
+    dependencies = %(deps)r
+    operations = [
+%(ops)s
+    ]
+"""
+
+
+def _create_model_op(name, fields):
+    lines = ["        migrations.CreateModel(name=%r, fields=[" % name,
+             "            ('id', models.AutoField(auto_created=True, "
+             "primary_key=True, serialize=False, verbose_name='ID')),"]
+    for fn, fd in fields:
+        lines.append("            (%r, %s)," % (fn, projlab.field_source(fd)))
+    lines.append("        ]),")
+    return '\n'.join(lines)
+
+
+def run_handover(desc):
+    """A router-split app is handed over to Django migrations: on each
+    database the pending evolution is applied to the models routed there,
+    the covered initial migration is recorded on *that* database only (not
+    executed), the later migration is executed there for the routed models
+    only, and the other database file is not modified."""
+    rng = seqcase.rng_for('C16h', desc['seed'], desc['i'])
+    i = desc['i']
+    names = ['A', 'B', 'C'][:2 + (i % 2)]
+    splits = [sp for sp in itertools.product(('default', 'other'),
+                                             repeat=len(names))
+              if len(set(sp)) == 2]
+    split = splits[(i // 2) % len(splits)]
+    routes = {('app1', m.lower()): db for m, db in zip(names, split)}
+    base = [['v', {'kind': 'Integer'}],
+            ['w', {'kind': 'Char', 'max_length': 20, 'null': True}]]
+    x = ['x', {'kind': 'Integer', 'null': True}]
+    mg2 = ['mg2', {'kind': 'Integer', 'null': True}]
+    spec0 = {'app1': {m: {'fields': S.clone(base), 'meta': {}}
+                      for m in names}}
+    spec1 = {'app1': {m: {'fields': S.clone(base) + [list(x)], 'meta': {}}
+                      for m in names}}
+    spec2 = {'app1': {m: {'fields': S.clone(base) + [list(x), list(mg2)],
+                          'meta': {}} for m in names}}
+    mark_initial = i % 4 != 3
+    texts1 = ["AddField(%r, 'x', models.IntegerField, null=True)" % m
+              for m in names]
+    evolutions = [('e1', texts1, {}),
+                  ('e_move', ['MoveToDjangoMigrations(mark_applied=%r)' % (
+                      ['0001_initial'] if mark_initial else [])], {})]
+    items, stats = [], {'projects': 1, 'db_runs': 0, 'handover_projects': 1}
+    proj = projlab.Project()
+    files = {'default': 'd.db', 'other': 'o.db'}
+    import os
+    try:
+        proj.write_app('app1', [spec0['app1'], spec2['app1']], evolutions,
+                       nv=[0, 2])
+        proj.write_router(routes)
+        os.makedirs(proj.path('app1', 'migrations_real'))
+        open(proj.path('app1', 'migrations_real', '__init__.py'),
+             'w').close()
+        with open(proj.path('app1', 'migrations_real', '0001_initial.py'),
+                  'w') as f:
+            f.write(MIGRATION_SRC % {
+                'initial': True, 'deps': [],
+                'ops': '\n'.join(_create_model_op(
+                    m, spec1['app1'][m]['fields']) for m in names)})
+        with open(proj.path('app1', 'migrations_real', '0002_mg2.py'),
+                  'w') as f:
+            f.write(MIGRATION_SRC % {
+                'initial': False, 'deps': [('app1', '0001_initial')],
+                'ops': '\n'.join(
+                    "        migrations.AddField(model_name=%r, name='mg2', "
+                    "field=models.IntegerField(null=True))," % m.lower()
+                    for m in names)})
+        on = {'app1': 'app1.migrations_real'}
+        off = {'app1': None}
+
+        def run(action, v, alias, migmods):
+            stats['db_runs'] += 1
+            return proj.run(action, version=v, db=files['default'],
+                            db2=files['other'], router=True, migmods=migmods,
+                            args={'database': alias})
+
+        for alias in ('default', 'other'):
+            ev = run('evolve_api', 0, alias, off)
+            if ev.get('driver_error') or not ev['outcome']['ok']:
+                return {'key': S.canon(['handover', i]), 'nontrivial': False,
+                        'items': [], 'stats': {'skipped_install_failed': 1},
+                        'case': None,
+                        'harness_error': str(ev.get('outcome') or ev)[:500]}
+            proj.insert_rows({t: [{'id': 1, 'v': 5, 'w': "it's"}]
+                              for t in owned_by(spec0, routes, alias)},
+                             files[alias])
+        order = ['default', 'other']
+        if (i // 4) % 2:
+            order.reverse()
+
+        def mig_rows(alias):
+            return sorted(
+                r.get('name') for r in proj.table_rows(
+                    'django_migrations', files[alias])
+                if r.get('app') == 'app1')
+
+        for alias in order:
+            other = 'other' if alias == 'default' else 'default'
+            sha_other = proj.sha(files[other])
+            other_rows = mig_rows(other)
+            drv = rng.choice(['evolve_api', 'evolve_cmd'])
+            ev = run(drv, 1, alias, on)
+            ctx = {'alias': alias, 'driver': drv, 'handover': True,
+                   'mark_has_initial': mark_initial,
+                   'first_database': alias == order[0]}
+            if ev.get('driver_error'):
+                items.append(dict(ctx, type='DRIVER_ERROR',
+                                  detail=str(ev)[:300]))
+                continue
+            if not ev['outcome']['ok']:
+                o = ev['outcome']
+                items.append(dict(ctx, type='RUN_FAILED', exc=o['exc'],
+                                  site=o.get('site'),
+                                  msg=o.get('msg', '')[:200]))
+                continue
+            foreign = [e for e in ev['events'] if e['kind'] == 'sql' and
+                       e.get('mutating') and e.get('alias') == other]
+            if foreign:
+                items.append(dict(ctx, type='STATEMENT_ON_OTHER_DATABASE',
+                                  sql=foreign[0]['sql'][:120]))
+            if proj.sha(files[other]) != sha_other:
+                items.append(dict(ctx, type='OTHER_DATABASE_FILE_CHANGED'))
+            if mig_rows(other) != other_rows:
+                items.append(dict(ctx, type='MIGRATION_ROWS_ON_OTHER_CHANGED',
+                                  before=other_rows, after=mig_rows(other)))
+            stats['handover_runs'] = stats.get('handover_runs', 0) + 1
+            got = mig_rows(alias)
+            if got != ['0001_initial', '0002_mg2']:
+                items.append(dict(ctx, type='MIGRATION_ROWS_WRONG', got=got))
+            after = user_tables(proj, files[alias])
+            want = owned_by(spec2, routes, alias)
+            if set(after) != want:
+                items.append(dict(ctx, type='TABLES_WRONG',
+                                  missing=sorted(want - set(after)),
+                                  extra=sorted(set(after) - want)))
+            for t in sorted(want & set(after)):
+                cols = set(after[t]['columns'])
+                if cols != {'id', 'v', 'w', 'x', 'mg2'}:
+                    items.append(dict(ctx, type='COLUMNS_WRONG', table=t,
+                                      got=sorted(cols)))
+                if len(after[t].get('rows', [])) != 1:
+                    items.append(dict(ctx, type='ROWS_LOST', table=t))
+            executed = [e for e in ev['events'] if e['kind'] == 'sql' and
+                        e.get('mutating') and
+                        'CREATE TABLE "app1_' in e['sql']]
+            if executed:
+                items.append(dict(ctx, type='COVERED_MIGRATION_EXECUTED',
+                                  sql=executed[0]['sql'][:120]))
+    finally:
+        proj.cleanup()
+    return {'key': S.canon(['handover', i, sorted(routes.items())]),
+            'nontrivial': True, 'items': items, 'stats': stats,
+            'case': {'routes': {'%s.%s' % k: v for k, v in routes.items()},
+                     'mark_initial': mark_initial, 'order': order}}
+
+
 def run_case(desc):
+    if desc.get('mode') == 'handover':
+        return run_handover(desc)
     rng = seqcase.rng_for('C16', desc['seed'], desc['i'])
     spec0, spec1, routes, edits, texts, renamed = gen(rng, desc['i'])
     items, stats = [], {'projects': 1, 'db_runs': 0}
@@ -163,8 +342,11 @@ def run_case(desc):
                 mine = [m for m in survivors
                         if routes[('app1', m.lower())] == alias]
                 if mine:
+                    # (e2 runs after e1: the table name after a rename)
+                    m0 = sorted(mine)[0]
                     sql_target[alias] = S.model_table(
-                        spec0, 'app1', sorted(mine)[0])
+                        spec1, 'app1',
+                        renamed[1] if renamed and renamed[0] == m0 else m0)
             stats['per_database_sql'] = 1
         specs = [spec0, spec1]
         nv = [0, len(evolutions)]
@@ -193,32 +375,48 @@ def run_case(desc):
                 f.write('UPDATE "%s" SET "v" = "v" + 100;\n' % table)
         proj.write_router(routes)
 
-        def run(action, v, alias):
+        def run(action, v, alias, apps=None):
             stats['db_runs'] += 1
             return proj.run(action, version=v, db=files['default'],
-                            db2=files['other'], router=True,
+                            db2=files['other'], router=True, apps=apps,
                             args={'database': alias})
 
+        # a model on `other` is renamed to a new table: the app only shows
+        # up in INSTALLED_APPS after `default` was installed, so on `default`
+        # its evolutions are recorded as a fresh install (no mutation runs
+        # there) while they are still pending on `other`
+        late_app = bool(renamed) and renamed[2] and \
+            routes[('app1', renamed[0].lower())] == 'other' and \
+            not sql_target and not lead
+        if late_app:
+            stats['late_app_projects'] = 1
         # ---- install V0 on both
         for alias in ('default', 'other'):
-            ev = run('evolve_api', 0, alias)
+            ev = run('evolve_api', 0, alias,
+                     apps=[] if late_app and alias == 'default' else None)
             if ev.get('driver_error') or not ev['outcome']['ok']:
                 items.append({'type': 'INSTALL_FAILED', 'alias': alias,
                               'detail': str(ev.get('outcome') or ev)[:300]})
+        fresh_on = {'default'} if late_app else set()
         for alias in ('default', 'other'):
             have = set(user_tables(proj, files[alias]))
-            want = owned_by(spec0, routes, alias)
+            want = owned_by(spec0, routes, alias) \
+                if alias not in fresh_on else set()
             if have != want:
                 items.append({'type': 'INSTALL_TABLES_WRONG', 'alias': alias,
                               'missing': sorted(want - have),
                               'extra': sorted(have - want)})
         for alias in ('default', 'other'):
+            if alias in fresh_on:
+                continue
             proj.insert_rows({t: [{'id': 1, 'v': 5, 'w': "it's"}]
                               for t in owned_by(spec0, routes, alias)},
                              files[alias])
         # ---- evolve each database in turn
         order = ['default', 'other']
         rng.shuffle(order)
+        if late_app:
+            order = ['default', 'other']
         steps = [(order[0], 1), (order[1], 1)]
         if lead:
             steps = [(order[0], 1), (order[0], 2), (order[1], 2)]
@@ -234,7 +432,8 @@ def run_case(desc):
                 at[alias] = ver
             ctx = {'alias': alias, 'driver': drv, 'to_version': ver,
                    'lead': bool(lead),
-                   'has_rename': bool(renamed),
+                   'has_rename': bool(renamed), 'late_app': late_app,
+                   'rename_new_table': bool(renamed) and renamed[2],
                    'rename_routed_here': bool(renamed) and routes[
                        ('app1', renamed[0].lower())] == alias}
             if ev.get('driver_error'):
@@ -284,7 +483,9 @@ def run_case(desc):
                         items.append(dict(ctx, type='COLUMNS_WRONG', table=t,
                                           got=sorted(cols),
                                           expected=sorted(exp)))
-                    if len(after[t].get('rows', [])) != 1:
+                    if alias in fresh_on:
+                        pass
+                    elif len(after[t].get('rows', [])) != 1:
                         items.append(dict(ctx, type='ROWS_LOST', table=t))
                     elif sql_target:
                         stats['sql_evolution_values_checked'] = stats.get(
